@@ -31,6 +31,7 @@ pub struct Cfg {
     pub bg: bool,
     pub utc: bool,
     pub fw: bool,
+    pub asadd: bool,
     pub via: String, // logger | flw
     pub subdir: String,
     pub maxlvl: String, // max level for the file writer (flw) - "" = default
@@ -94,6 +95,7 @@ impl Cfg {
             bg: gb(v, "bg", false),
             utc: gb(v, "utc", false),
             fw: gb(v, "fw", false),
+            asadd: gb(v, "asadd", false),
             via: gs(v, "via", "logger"),
             subdir: gs(v, "subdir", "logs"),
             maxlvl: gs(v, "maxlvl", ""),
